@@ -132,6 +132,7 @@ type Exec struct {
 	deferIdx   map[*ast.DeferStmt]int
 	inlineStack []*inlineFrame
 	pendingKeyVar *types.Var
+	hypLabel      map[*Term]string // hypotheses contributed by isolated invariants (contract clause `isolate`)
 	pendingLabel  string // label of the statement about to be executed (loop or switch)
 	entryReqs     []*Term // the translated preconditions (replay: judged on concrete inputs)
 	pendingIndVar *types.Var
@@ -253,6 +254,20 @@ func (x *Exec) oblige(s *State, kind, label string, goal *Term, text, pos string
 		name = fmt.Sprintf("%s~%d", base, n)
 	}
 	hyps := append([]*Term(nil), s.pc...)
+	if x.c != nil && len(x.c.Isolate) > 0 && len(x.hypLabel) > 0 {
+		base := label
+		if i := strings.IndexAny(base, ".~@"); i >= 0 {
+			base = base[:i]
+		}
+		mine := x.c.Isolate[base]
+		kept := hyps[:0]
+		for _, h := range hyps {
+			if hl, iso := x.hypLabel[h]; !iso || x.c.Isolate[hl] == mine {
+				kept = append(kept, h)
+			}
+		}
+		hyps = kept
+	}
 	hyps = append(hyps, x.guard...)
 	ob := &Obligation{Func: x.fi.Name, Name: name, Kind: kind, Hyps: hyps, Goal: goal, Mode: x.mode, Text: text, Pos: pos, LemmaIndex: -1, EnsIdx: x.curEnsIdx, RetTag: x.curRetTag}
 	if (kind == "ensures" || kind == "nopanic") && x.entryState != nil && !x.replayOff {
@@ -2031,8 +2046,29 @@ func (x *Exec) assumeInvariants(s *State, entry *State, lc *loopCtx) {
 		env.bound[k] = v
 	}
 	for _, inv := range lc.spec.Invariants {
-		s.assume(x.trInvariant(inv, env))
+		t := x.trInvariant(inv, env)
+		if x.c != nil && x.c.Isolate[inv.Label] != 0 {
+			x.tagHyps(t, inv.Label)
+		}
+		s.assume(t)
 	}
+}
+
+// tagHyps remembers which hypotheses come from an isolated invariant (the conjuncts State.assume will store).
+func (x *Exec) tagHyps(t *Term, label string) {
+	if t == nil {
+		return
+	}
+	if t.Op == "and" {
+		for _, a := range t.Args {
+			x.tagHyps(a, label)
+		}
+		return
+	}
+	if x.hypLabel == nil {
+		x.hypLabel = map[*Term]string{}
+	}
+	x.hypLabel[t] = label
 }
 
 // trInvariant translates a loop invariant. A conjunct that mentions an identifier which is no longer a variable of the
